@@ -61,7 +61,7 @@ EvStart ==
        /\ wpc' = [w \in 1..n |-> "notstarted"] /\ wwork' = [w \in 1..n |-> 0]
        /\ cpc' = "idle" /\ cch' = NIL /\ cres' = "none" /\ cstate' = "active"
        /\ eof' = FALSE /\ err' = "none" /\ obs' = <<>> /\ stopped' = FALSE
-       /\ bad' = "none" /\ taint' = {}
+       /\ bad' = "none"
   /\ wal' = <<>> /\ cal' = <<>>
   /\ Adv
 
@@ -110,7 +110,7 @@ Silent ==
   /\ \/ ParserRead \/ ParserCtlSend \/ ParserCtlCancel \/ ParserGetWorker \/ ParserEnqueue
      \/ ParserCancelReturn \/ ParserDispatch \/ ParserDispatchCancel \/ ParserClose
      \/ \E w \in Workers : WorkerReady(w) \/ WorkerCancel(w) \/ WorkerFailA(w) \/ WorkerSend(w)
-     \/ DrainOne \/ PullRecv \/ PullCtxDone
+     \/ DrainOne \/ PullRecv \/ PullCtxDone \/ PullRecvClosed
   /\ UNCHANGED <<l, wal, cal>>
 
 TraceInit ==
